@@ -133,11 +133,17 @@ func (p *dataSanitationProcessor) Execute(
 	onRequest.SetBody(scrubbedBody[0])
 	apiStream.SetRequest(onRequest)
 
+	// The URL of a request may not parse (e.g. an invalid percent-encoding in the
+	// path): GetParsedURL returns nil then, and the path as received is kept.
+	path := onRequest.GetPath()
+	if parsedURL := onRequest.GetParsedURL(); parsedURL != nil {
+		path = parsedURL.Path
+	}
 	reqAction := &actions.ModifyRequestAction{
 		HeadersToSet: onRequest.GetHeaders(),
 		Host:         onRequest.GetHost(),
 		Body:         onRequest.GetBody(),
-		Path:         onRequest.GetParsedURL().Path,
+		Path:         path,
 		QueryParams:  onRequest.GetQuery(),
 	}
 
